@@ -26,12 +26,13 @@ class InvCtx:
 
 class Inv:
     def __init__(s, name, qf=None, foralls=(), conts=(), dicts=(), fields=(), vars=(), var_types=None, setup=None,
-                 ghost_havoc=None, axioms=(), defs=None, steps=()):
+                 ghost_havoc=None, axioms=(), defs=None, steps=(), header=None):
         s.name, s.qf, s.foralls, s.conts, s.dicts, s.fields, s.vars = name, qf, list(foralls), list(conts), list(dicts), list(fields), list(vars)
         s.var_types = var_types or {}
         s.setup = setup            # fn(ctx) run once at loop entry (may record ghost values in ctx.extra)
         s.ghost_havoc = ghost_havoc  # fn(ctx) -> None: havoc ghost state carried in p.ghost
         s.axioms = list(axioms)
+        s.header = header          # text that must occur in the loop header (anchor check: the invariant belongs to THIS loop)
         s.steps = list(steps)      # [(name, fn(ctx) -> Bool|None)]: transition clauses checked at the end of each iteration
         s.defs = defs              # fn(ctx) -> Bool: defining instances of ghost spec functions, ASSUMED at the loop head
 
@@ -126,6 +127,8 @@ class StmtMixin(CallMixin):
         return [Out("normal", p)]
 
     def s_Assert(s, n, p):
+        if source.static_test(n.test, s.cfg) is True:
+            return [Out("normal", p)]
         def k(p1, v):
             t, f = s.fork(p1, s.truthy(p1, v))
             outs = []
@@ -516,7 +519,13 @@ class StmtMixin(CallMixin):
     def get_inv(s, n):
         fi = s.func_stack[-1]
         key = fi.loop_keys.get(id(n))
-        return s.unit.invariants.get((fi.name, key)), key
+        inv = s.unit.invariants.get((fi.name, key))
+        if inv is not None and inv.header:
+            hdr = ast.unparse(n.test) if isinstance(n, ast.While) else ast.unparse(n.target) + " in " + ast.unparse(n.iter)
+            if inv.header.replace(" ", "") not in hdr.replace(" ", ""):
+                raise KeyError(f"contract anchor lost: loop {key} of {fi.name} is `{hdr[:70]}`, the invariant {inv.name} was written for "
+                               f"`{inv.header}` (the loop structure changed)")
+        return inv, key
 
     def assigned_names(s, body):
         out = []
